@@ -135,7 +135,7 @@ class Voc(Cont):
     name, major, driver = "voc", 0x08, "small3"
     rates = [1, 3906, 3907, 3922, 8000, 11025, 22050, 44100, 62500, 65536, 333334, 1000000, 1000001, 128000000, 2 ** 31 - 1]
     lengths = [0, 1, 2, 3, 5, 8, 4097]
-    kf_ids = ("KF-VOC-MONO-G711", "KF-VOC-UPDATE")
+    # KF-VOC-MONO-G711 / KF-VOC-UPDATE are repaired: no class is waived (the terminator is never counted, update images re-open exactly)
 
     def channels(self, f):
         return [1, 2]
@@ -194,19 +194,6 @@ class Voc(Cont):
             if ln != (audio + 12) % 2 ** 24:
                 out.append("type 9 block length %d, the block holds 12 + %d bytes" % (ln, audio))
         return out
-
-    def known(self, j, frames_total, probs):
-        # KF-VOC-MONO-G711: u-law / A-law, one channel: the terminator is counted (frames N+1, block length one too long)
-        if j.f.codec in (0x10, 0x11) and j.ch == 1:
-            sig = ("frames %d, %d written" % (j.n + 1, j.n), "type 9 block length %d, the block holds 12 + %d bytes" % ((j.n + 13) % 2 ** 24, j.n))
-            return "KF-VOC-MONO-G711" if all(p in sig for p in probs) else None
-        # KF-VOC-UPDATE: PCM_U8 (type 1 block): the image after a header update re-opens one byte short
-        if j.f.codec == 5 and j.parts[0] > 0:
-            def short(p):
-                m = re.search(r"reports open=ok .* frames=(\d+) ", p)
-                return p.startswith("[C11]") and m and int(m.group(1)) == j.parts[0] - 1 and " ch=%d " % j.ch in p
-            return "KF-VOC-UPDATE" if all(short(p) for p in probs) else None
-        return None
 
     def hdr_len(self, b):
         ty = b[26] if len(b) > 26 else 0
